@@ -70,7 +70,7 @@ HOWS['mixed'] = ['int', 'rat', 'rat', 'float'] + HOWS['sfloat']
 
 
 def make_param(v, how):
-    """the rational value v (exactly representable in binary floating point) as the python / sympy / numpy object `how`"""
+    """the rational value v (rounded to the nearest double by the floating-point constructors) as the python / sympy / numpy object `how`"""
     import sympy
     v = sympy.Rational(v)
     if how == 'int':
@@ -121,6 +121,14 @@ def params_for(name, d, rng, kind, how=None):
     """numeric parameters in a range where the mapping is regular on the sample box; `how` (a dict) receives the
     constructor used for every parameter and the exact rational values (for the replay)"""
     from sympy import Matrix, Rational
+    # floating-point kinds: half of the parameter sets are dyadic (float(v) is exact and so is most of sympy's Float
+    # arithmetic on them), half decimal (0.3, 0.07: every product is rounded while the stored quantities are built,
+    # and sympy's simplification of Matrix.inv() no longer cancels the pivots)
+    decimal = kind in ('float', 'sfloat', 'mixed') and rng.random() < 0.5
+    DEC = {1: 1, 8: 10, 16: 10, 32: 100, 64: 100, 256: 1000}
+
+    def rat(rng_, lo, hi, den_=16):
+        return globals()['rat'](rng_, lo, hi, DEC[den_] if decimal else den_)
     den = 1 if kind == 'int' else 16
     r = lambda lo, hi: rat(rng, lo, hi, den)
     ld, pd = ldpd(d)
@@ -747,7 +755,8 @@ FIXED = [
     ('fixed:CzarnyMapping:float', 'CzarnyMapping', 2, {'c2': ('float', '1/16'), 'b': ('float', '2'), 'eps': ('float', '15/32')}, 0.3),
     # floating-point parameters that are not python floats, at points where a pivot of J vanishes (fix 27300fc, seeded C16-8)
     ('fixed:CzarnyMapping:sfloat', 'CzarnyMapping', 2, {'c2': ('Float', '1/16'), 'b': ('sympify', '3/2'), 'eps': ('evalf', '5/16')}, 1.0),
-    ('fixed:TargetMapping:sfloat', 'TargetMapping', 2, {'c1': ('Float', '1/8'), 'c2': ('Decimal', '1/4'), 'k': ('sympify', '5/16'), 'D': ('evalf', '3/16')}, 1.0),
+    ('fixed:TargetMapping:sfloat', 'TargetMapping', 2, {'c1': ('Float', '1/10'), 'c2': ('Decimal', '1/5'), 'k': ('sympify', '3/10'), 'D': ('evalf', '1/5')}, 1.0),
+    ('fixed:TwistedTargetMapping:float', 'TwistedTargetMapping', 3, {'c1': ('float', '1/10'), 'c2': ('float', '1/5'), 'c3': ('np.float64', '-3/10'), 'k': ('float', '3/10'), 'D': ('float', '1/5')}, 1.0),
     ('fixed:PolarMapping:mixed', 'PolarMapping', 2, {'c1': ('rat', '1/2'), 'c2': ('int', '0'), 'rmin': ('mpf', '1/2'), 'rmax': ('Float', '7/4')}, 1.0),
     # curves and a surface: ldim < pdim through the classes without a fixed dimension (seeded C16-7)
     ('fixed:AffineMapping:1x2:rat', 'AffineMapping', (1, 2), {'c1': ('int', '1'), 'c2': ('int', '-2'), 'a11': ('int', '2'), 'a21': ('rat', '3/2')}, 0.3),
